@@ -26,6 +26,7 @@ class C01(Prop):
         for op in plan["ops"]:
             if op["op"] == "solve" and mode == "real":
                 op["peer"]["solver"] = "CLARABEL"
+                op["peer"]["force_solver"] = True
                 if "solver" in op["cfg"]["kwargs"]:
                     op["cfg"]["kwargs"]["solver"] = "CLARABEL"
         plan["opts"] = {"oracles": ["attr", "cert"]}
